@@ -498,8 +498,19 @@ pub struct Rule {
     optimised: bool,
 
     pub detection: Detection,
+    #[serde(deserialize_with = "examples")]
     pub true_positives: Vec<Yaml>,
+    #[serde(deserialize_with = "examples")]
     pub true_negatives: Vec<Yaml>,
+}
+
+/// An example list written as `~` / `null` is an empty list, whether the rule is loaded from text
+/// or from a YAML value (serde_yaml reads a null as an empty sequence only in the latter case).
+fn examples<'de, D>(deserializer: D) -> Result<Vec<Yaml>, D::Error>
+where
+    D: de::Deserializer<'de>,
+{
+    Ok(Option::<Vec<Yaml>>::deserialize(deserializer)?.unwrap_or_default())
 }
 
 impl Rule {
